@@ -106,6 +106,8 @@ def make_files(tier, seed, mdl):
             files.append(body + b"\n")
             files.append(body)
             files.append(b"q" * (L - len(t)) + t + b"\nnext@line.com\n")
+    files.append(b"".join(rng.choice(valid) + b"\n" for _ in range(5000)))            # many lines in one file
+    files.append(b"".join((rng.choice(short) if i % 3 else rng.choice(valid)) + (b"\r\n" if i % 2 else b"\n") for i in range(3000)))
     while len(files) < nfiles:
         n = rng.choice([1, 2, 3, 5, 10, 40, 200])
         term = rng.choice([b"\n", b"\n", b"\r\n"])
@@ -141,7 +143,7 @@ def w_files(tool, libdir, exe, files, workdir, wid):
     i = 0
     group = 0
     while i < len(files):
-        k = 1 + (group % 3)
+        k = 1 + (group % 3) if group % 40 else 24          # now and then two dozen files on one command line
         chunk = files[i:i + k]
         i += k
         group += 1
@@ -152,7 +154,15 @@ def w_files(tool, libdir, exe, files, workdir, wid):
                 f.write(data)
             paths.append(p)
         try:
-            pr = subprocess.run([tool] + paths, stdout=subprocess.PIPE, stderr=subprocess.PIPE, env=env, timeout=300)
+            if group % 4 == 1:
+                # stdout redirected to a regular file (fully buffered stdio) instead of a pipe
+                op = os.path.join(d, "out%d.txt" % group)
+                with open(op, "wb") as fo:
+                    pr = subprocess.run([tool] + paths, stdout=fo, stderr=subprocess.PIPE, env=env, timeout=300)
+                pr.stdout = open(op, "rb").read()
+                os.unlink(op)
+            else:
+                pr = subprocess.run([tool] + paths, stdout=subprocess.PIPE, stderr=subprocess.PIPE, env=env, timeout=300)
         except subprocess.TimeoutExpired:
             part["viol"].append(("hang", {"files": [core.b2s(x)[:200] for x in chunk]}, {"timeout_s": 300}))
             continue
